@@ -128,7 +128,7 @@ LEVEL_TEXT.update({
                   "C04_C07_quiescent_exact, by the thread-modular invariant ConcInv - all for ARBITRARY injected obstacles (`bad`: blob paths whose unlink / rename-onto / read fails, "
                   "`ckbad`: failing checkpoints; proofs/ConcFault.v): C04_no_dangling_with_faults, C04_failed_delete_keeps_other_intents (the per-hash intent ledger is exact "
                   "in every reachable state: finding F6), F6_fixed_run and F6_prefix_refuted (the pre-fix behaviour reaches a dangling key). K6/K7: small concurrent programs run on the real library under schedules chosen by the "
-                  "model (threads parked at the `verif` scheduling points), every step's next point, lock bits, cas listing, index and intents compared; plus model-free "
+                  "model (threads parked at the `verif` scheduling points), every step's next point, lock bits, cas listing, index, per-key intents and the per-hash intent ledger compared; plus model-free "
                   "random exploration of the same programs (uniform and priority-based with one change point), both also with injected obstacles (`undeletable <content>`, "
                   "`blockckpt`); oracle: after every step every indexed key's blob file exists.",
              note=BASE_NOTE + "Atomicity of the code between two scheduling points, parking_lot's mutual exclusion and the thread scheduler (any interleaving of the "
